@@ -648,8 +648,14 @@ func writeEvidence(root string, a *Agg, nviol int) {
 			samples = append(samples, map[string]interface{}{"case": r.Name, "verdict": r.Verdict})
 		}
 	}
+	// some checks count executions (scenarios, scripts), others only the observations they made inside one execution
+	// (pairs, rounds): an observation is at least one evaluation of the oracle
+	evals := a.Evals
+	if d := a.Distinct(); evals < d {
+		evals = d
+	}
 	cov := map[string]interface{}{
-		"evaluations":         a.Evals,
+		"evaluations":         evals,
 		"cases":               len(a.Results),
 		"distinct_nontrivial": a.Distinct(),
 		"rule":                p.Rule,
